@@ -24,6 +24,7 @@ use tokio::task::JoinHandle;
 #[derive(Clone, Copy, Debug, PartialEq, Eq, Hash)]
 pub enum Focus {
     C01,
+    C04,
     C09,
     C10,
     C12,
@@ -38,6 +39,7 @@ impl Focus {
     fn tag(&self) -> &'static str {
         match self {
             Focus::C01 => "C01",
+            Focus::C04 => "C04",
             Focus::C09 => "C09",
             Focus::C10 => "C10",
             Focus::C12 => "C12",
@@ -749,6 +751,7 @@ impl Sys {
         for a in &self.apis {
             let Some((_, out)) = &a.done else {
                 rep.count("sys_api_calls_open_at_end");
+                self.flag(rep, Focus::C04, "C04:api-call-without-outcome", format!("{} (started at {:?}) has neither returned a result nor an error long after every timeout", a.what, a.started), json!({"call": a.what}));
                 continue;
             };
             rep.count("sys_api_calls_completed");
@@ -1593,6 +1596,7 @@ pub fn replay(r: &Value, rep: &mut Report) -> bool {
     let seed: u64 = r["replay"]["scenario_seed"].as_str().unwrap().parse().unwrap();
     let focus = match r["replay"]["focus"].as_str().unwrap_or("") {
         "C01" => Focus::C01,
+        "C04" => Focus::C04,
         "C09" => Focus::C09,
         "C10" => Focus::C10,
         "C12" => Focus::C12,
